@@ -1430,7 +1430,11 @@ def check_B(ctx, out, spec, line, model_line):
             got = r.center_data[f"c{cid}"].electron_shells[k].nfunctions()
             if got != nfunc(h, am):
                 viol(out, "oracle:nfunctions", line, got, nfunc(h, am), f"shell c{cid}[{k}] {h} {am}")
-    r2 = BasisSet(**r.dict())
+    try:
+        r2 = BasisSet(**r.dict())
+    except Exception as e:  # noqa
+        viol(out, "oracle:revalidate", line, canon_err(e), "the same basis set", "re-validating the dumped basis set is refused")
+        return
     if not deep_equal(r.dict(), r2.dict()):
         viol(out, "oracle:revalidate", line, detail="re-validating the dumped basis set changes it")
 
